@@ -22,6 +22,7 @@ fn main() {
         clvlib::codec::replay_datagram(&b);
         return;
     }
+    #[cfg(feature = "std")]
     if cmd == "cold-c13" {
         // exactly one constructor call in a fresh process (nothing has warmed any process-wide state)
         let n: usize = args[2].parse().expect("num");
